@@ -23,6 +23,22 @@ CHECKS = {
              "inconclusive, cross-checked against solver verdicts). Assumed: non-degenerate states (denominators non-zero). "
              "Outside: convergence/termination of M2E, floating-point loss near e->0, i->0.",
         ref="DESIGN.md section 3 C01", technique=TECH),
+    "C03": dict(
+        text="beyond.dates.date runs symbolically on float/int subclasses that wrap exact reals (// % divmod with Python's floor "
+             "semantics, int() truncation) and on exact-second models of datetime/timedelta, with one symbolic EOP record: offsets "
+             "between all 36 ordered scale pairs are exactly the signed sums of 32.184, 19, TAI-UTC, UT1-UTC (TDB: TT plus a term "
+             "below 1.7 ms) and antisymmetric; for the 25 pairs of UT1/GPS/UTC/TAI/TT a Date and its change_scale denote the same "
+             "instant, compare equal, carry the right label, keep their private seconds in [0,86400) and expose THE normalised "
+             "clock reading of that instant; (d+t)-d = t, d-(d-t) = t and associativity in TAI/TT/GPS/UTC; comparisons follow the "
+             "instants whatever the labels; DateRange iteration = start+k*step, count = len(), membership, for both step signs and "
+             "inclusive or not (bounded unwinding); the three missing-EOP policies. The eq/hash clause is decided bit-precisely: the "
+             "return expressions of Date._mjd/__eq__/__hash__ are translated from the AST into IEEE-754 binary64 terms and cvc5 "
+             "proves that equal dates have equal hash inputs.",
+        note="Trusted: z3, cvc5; exact reals for the arithmetic laws (floating-point and microsecond rounding outside: the 1-2 "
+             "microsecond bounds are not claimed), source float literals read as the decimals they denote; one EOP record for the "
+             "dates of an obligation (same table day, no leap second). Outside: IERS table content, same-instant across a TDB "
+             "conversion (needs a Lipschitz bound of the periodic term).",
+        ref="DESIGN.md section 3 C03", technique=TECH + "; AST->QF_FP (cvc5) for eq/hash"),
     "C05": dict(
         text="Kepler.propagate and J2.propagate are executed symbolically on a mean-element carrier with the real Infos: proved for "
              "all elements, mu and dt that a,e,i,Omega,omega are unchanged and M advances by sqrt(mu/|a|^3) dt (elliptic and "
